@@ -32,3 +32,20 @@ def c13(ck, tier, seed):
 
 
 REGISTER = {"C13": (c13, "model_checking")}
+
+
+def c12(ck, tier, seed):
+    ck.cov["rule"] = ("V: sat_count(vars) for all 256 three-variable functions under 2/6 orders x vars in {3,4,62,63,64,73,127,128,1100} "
+                      "(ZBDD: vars = number of levels, the documented domain) x number types Saturating<u64>, Saturating<u128>, F64, "
+                      "Natural, fresh and shared caches; cache histories over 3..12 variables: one cache across handles, gc with node-id "
+                      "reuse, reordering, changing vars; expected value |S|*2^(vars-n) computed by TLC in base-2^15 limb arithmetic; "
+                      "plus the Natural arithmetic part (Natural.tla) when available")
+    _run(ck, "count", ["C12"], tier, seed)
+    try:
+        import chk_num
+        chk_num.natural_part(ck, tier, seed)
+    except ImportError:
+        ck.assumptions.append("Natural arithmetic part (chk_num.natural_part) not available in this run")
+
+
+REGISTER["C12"] = (c12, "model_checking")
